@@ -54,6 +54,17 @@ impl Elem for f64 {
         (*self as i64).to_string()
     }
 }
+/// `Trace<Fp>` elements (forward-mode dual numbers): `v~d` is a value with derivative part `d`,
+/// a bare `v` a constant; used by C14's element-type axis.
+impl Elem for easy_ml::differentiation::Trace<Fp> {
+    fn parse(s: &str) -> Self {
+        match s.split_once('~') {
+            Some((v, d)) => easy_ml::differentiation::Trace { number: <Fp as Elem>::parse(v), derivative: <Fp as Elem>::parse(d) },
+            None => easy_ml::differentiation::Trace::constant(<Fp as Elem>::parse(s)),
+        }
+    }
+    fn show(&self) -> String { format!("{}~{}", self.number.0, self.derivative.0) }
+}
 impl Elem for i64 {
     fn parse(s: &str) -> i64 { s.parse().expect("i64") }
     fn show(&self) -> String { self.to_string() }
@@ -2219,6 +2230,7 @@ macro_rules! runner_for {
 runner_for!(run_fp, Fp, with_t_pair, with_t, with_t_ref, with_t_rhs, with_m_pair, with_m, same_d, any_d);
 runner_for!(run_rat, Rat, with_t_pair_lite, with_t_lite, with_t_ref_lite, with_t_rhs_lite, with_m_pair_lite, with_m_lite, same_d, any_d);
 runner_for!(run_f64, f64, with_t_pair_lite, with_t_lite, with_t_ref_lite, with_t_rhs_lite, with_m_pair_lite, with_m_lite, same_d_lite, any_d_lite);
+runner_for!(run_trace, easy_ml::differentiation::Trace<Fp>, with_t_pair_lite, with_t_lite, with_t_ref_lite, with_t_rhs_lite, with_m_pair_lite, with_m_lite, same_d_lite, any_d_lite);
 runner_for!(run_i64, i64, with_t_pair_lite, with_t_lite, with_t_ref_lite, with_t_rhs_lite, with_m_pair_lite, with_m_lite, same_d_lite, any_d_lite);
 
 // ---------------------------------------------------------------------------------------------
